@@ -42,8 +42,12 @@ func (r *Run) monitorComps(m *Monitor) []string {
 	var out []string
 	for _, f := range m.Fields {
 		switch {
-		case strings.HasPrefix(f, "elems(") || strings.Contains(f, "."):
-			// resolved at lock time (needs types); see lockHavoc
+		case strings.Contains(f, "["):
+			out = append(out, "ghost."+f[:strings.Index(f, "[")])
+		case strings.HasPrefix(f, "elems("):
+			out = append(out, "E.*")
+		case strings.Contains(f, "."):
+			out = append(out, "F."+m.Pkg+"."+f)
 		default:
 			out = append(out, "F."+m.Pkg+"."+m.Struct+"."+f)
 		}
@@ -876,6 +880,23 @@ func (r *Run) monitorHavoc(st *State, mon *Monitor, obj Term) {
 				m := r.heapGet(st, comp)
 				r.heapSet(st, comp, Store(m, slBase(sv.T), r.ctx.Fresh("mon.row", arraySort(SInt, srt))))
 			}
+		case strings.Contains(f, "[") && strings.HasSuffix(f, "]"):
+			// ghostArray[field]: one entry of a global ghost array, indexed by a field of the locked object
+			k := strings.Index(f, "[")
+			gname := f[:k]
+			srt, ok := r.specs.Ghosts[gname]
+			if !ok {
+				r.warn("monitor: unknown ghost array %s", gname)
+				continue
+			}
+			fl := r.fieldByName(st, self, f[k+1:len(f)-1])
+			if fl == nil {
+				continue
+			}
+			idx := r.mustTerm(r.load(st, fl), "monitor index")
+			comp := "ghost." + gname
+			r.regComp(comp, srt)
+			r.heapSet(st, comp, Store(r.heapGet(st, comp), idx, r.ctx.Fresh("mon."+gname, arrayValSort(srt))))
 		case strings.Contains(f, "."):
 			// Type.field: whole component
 			parts := strings.SplitN(f, ".", 2)
@@ -1138,7 +1159,7 @@ func (r *Run) appendOp(fr *Frame, st *State, reach Term, cc *ssa.CallCommon, arg
 	r.ctx.Assert(Term{fmt.Sprintf("(forall ((j Int)) (! %s :pattern ((select %s j))))", body.S, row.S), SBool})
 	// if nothing is appended to a nil slice the result is nil
 	final := Ite(And(Eq(slBase(s), mkInt(0)), Eq(n2, mkInt(0))), nilSlice, res)
-	r.heapSet(st, comp, r.ctx.Define("h."+comp, Ite(And(Eq(slBase(s), mkInt(0)), Eq(n2, mkInt(0))), M, Store(M, resBase, row))))
+	r.heapSet(st, comp, r.ctx.Define("h."+comp, Store(M, resBase, row)))
 	return termVal(r.ctx.Define("apres", final), st0)
 }
 
@@ -1168,6 +1189,6 @@ func (r *Run) copyOp(fr *Frame, st *State, reach Term, cc *ssa.CallCommon, args 
 	j := Term{"j", SInt}
 	body := Eq(Select(row, j), Ite(And(Le(slOff(d), j), Lt(j, Add(slOff(d), n))), srcAt(Sub(j, slOff(d))), Select(oldRow, j)))
 	r.ctx.Assert(Term{fmt.Sprintf("(forall ((j Int)) (! %s :pattern ((select %s j))))", body.S, row.S), SBool})
-	r.heapSet(st, comp, r.ctx.Define("h."+comp, Ite(Eq(n, mkInt(0)), M, Store(M, slBase(d), row))))
+	r.heapSet(st, comp, r.ctx.Define("h."+comp, Store(M, slBase(d), row)))
 	return termVal(n, intT)
 }
